@@ -300,7 +300,7 @@ def task(item: tuple[str, int, str]) -> dict[str, Any]:
             cf = evaluate(dict(scn, req_style="check"), f"cf{k}")["violation"]
             if cf is None:
                 v = dict(v, kind="recheck_follow_imports_keeps_unreferenced_modules")
-        out["violation"] = {"family": fam, "scenario": scn, "violation": v}
+        out["violation"] = {"family": fam, "scenario": scn, "violation": v, "k": k}
     return out
 
 
@@ -357,6 +357,8 @@ def minimise(v: dict[str, Any]) -> dict[str, Any]:
 
 
 def finalise_task(v: dict[str, Any]) -> dict[str, Any]:
+    if v["violation"]["kind"] == "recheck_follow_imports_keeps_unreferenced_modules":
+        return {"family": v["family"], "scenario": v["scenario"], "violation": v["violation"], "k": v.get("k")}
     small = minimise(v)
     r = evaluate(small["scenario"], "fin")
     if r["violation"] is None or r["violation"]["kind"] != v["violation"]["kind"]:
@@ -375,7 +377,7 @@ def match_known(v: dict[str, Any], known: list[dict[str, Any]]) -> dict[str, Any
                     and [v["scenario"]["transform"], v["scenario"].get("req_style")] in m.get("members", [])
                     and v["violation"]["kind"] not in ("recheck_follow_imports_keeps_unreferenced_modules",)):
                 return e
-        elif m.get("kind") == v["violation"]["kind"] and m.get("family", v["family"]) == v["family"]:
+        elif m.get("kind") == v["violation"]["kind"] and m.get("family", v["family"]) == v["family"] and "members" not in m:
             return e
     return None
 
@@ -410,17 +412,19 @@ def run(tier: str) -> int:
         rep.add_result(r)
         if "violation" in r:
             by_class.setdefault(vkey(r["violation"]), []).append(r["violation"])
-    unknown = []
+    kit.dump_raw(PROP, tier, by_class)
+    unknown: dict[str, list[dict[str, Any]]] = {}
     for cls, vs in sorted(by_class.items()):
-        e = match_known(vs[0], known)
-        if e is not None:
-            rep.known_finding(f"{e['what']} (class {cls}, occurrences this run: {len(vs)})")
-        else:
-            unknown.append(vs[0])
-    finals, _ = kit.run_pool(finalise_task, unknown)
-    for v in finals:
+        for v in vs:
+            e = match_known(v, known)
+            if e is not None:
+                rep.known_finding(e["what"])
+                rep.probes["known_members"] = rep.probes.get("known_members", 0) + 1
+                continue
+            unknown.setdefault(cls, []).append(v)
+    for v in kit.finalise_classes(finalise_task, unknown):
         path = kit.write_replay(PROP, {"engine": "daemonsim", **v})
-        rep.violation(path, vkey(v))
+        rep.violation(path, f"{v['cls']} members={[m[1] for m in (v.get('members') or [])][:10]}")
     rep.extra["corpus_cases"] = len(fg_cases())
     rep.extra["skipped_for_budget"] = skipped
     rep.write()
